@@ -7,6 +7,9 @@ import PdshVerif.Dsh.SignalsFan
 import PdshVerif.Dsh.SignalsRank
 import PdshVerif.Dsh.SignalsBound
 import PdshVerif.Dsh.SignalsOnce
+import PdshVerif.Dsh.SignalsList
+import PdshVerif.Dsh.SignalsOrder
+import PdshVerif.Dsh.SignalsExit
 import PdshVerif.Props.C03
 import PdshVerif.Props.C04
 
@@ -41,6 +44,26 @@ What is proved (for every `v`, `f`, `n`, every schedule and arrival time unless 
       run) ending in a state with the same worker program counters, `t[i].state`, threadcount, dispatcher state
       and exit status; and: not -b, clock past INTR_TIME, at most one signal delivered in the whole run and
       that a SIGINT ⇒ S never forwards, exits or cancels, for every schedule and arrival time;
+* `listing_names_connecting_or_running`, `listing_printed_is_the_snapshot`, `both_listing_disciplines`
+      what the ^C listing names: taking thd_mutex in `_list_slowthreads` records exactly the slots that are RCMD
+      ("connecting") or READING ("command in progress") at that moment; each such host has a worker that has marked
+      itself and not yet recorded the end of its command; every host whose command is running is named, and every host
+      inside or around rcmd_connect unless ^Z canceled it; the recorded list is what is printed *whenever* it is printed:
+      the LTS accepts "print with thd_mutex held" (dsh.c as pinned: `listing k` → … → `listing 0` → unlock), "copy, unlock,
+      print" (harmless change C20-H2: unlock at `listing k` → `printing (k-1)` → …) and every mixture, and EVERY theorem
+      of this file holds for all of them (they are proved of the one `step`); both pure disciplines are shown to be
+      runs with the same final state;
+* `lock_order`
+      lock discipline over all four kinds of threads (dispatcher, workers, signals thread, watchdog) and both mutexes,
+      for every schedule, arrival time and watchdog scan: no thread ever holds threadcount_mutex and thd_mutex together,
+      the watchdog never holds threadcount_mutex, and whoever holds either mutex has an enabled operation of its own
+      that acquires nothing — a holder never waits, so the wait-for graph has no cycle; in particular the signals
+      thread and the watchdog cannot hold each other's mutex in reverse order;
+* `canceled_run_S_nonzero`, `harmless_same_exit_status`   (composition with C08's model of the -S loop, `Dsh/Exit.lean`)
+      a run in which ^C ^Z cancels a target that was not started and that goes on to its normal end exits non-zero under
+      -S (repaired worker, repaired loop: the slot is still CANCELED when dsh() returns and the loop counts it); after a
+      harmless interrupt the loop reads the same slots as after the signal-free run: same exit status.  With
+      `exit_nonzero_on_abort` (= C08 `sigint_abort_nonzero`) every way a run with interrupts ends has its status;
 * `tstp_window`, `tstp_cancels_only_pending`, `canceled_new_never_started`, `dispatcher_skips_canceled`
       ^Z within INTR_TIME of the last report cancels, else stops; the cancellation changes no worker's program
       counter, only NEW/RCMD slots (whose worker, by the invariant `TInv`, has not recorded a connection) and
@@ -90,11 +113,16 @@ What is proved (for every `v`, `f`, `n`, every schedule and arrival time unless 
       thread and the environment forgotten, a run of `Dsh/Fan.lean` with stutter steps — so the C03/C04 theorems
       hold of it (two of them are restated here).
 
-Not proved here: that dsh.c refines the LTS (trace correspondence of `checks/c20.py`, incl. the listing =
-RCMD/READING hosts, which the model computes at `S.lockT` and the acceptor compares); fairness of the real
-scheduler (`no_deadlock_with_signals` says a step is *possible*); the content of relayed output (C05/C06);
--k, the watchdog, pthread_create/rcmd_create failure; plain-memory races below the granularity of wrapped
-calls (`_cancel_pending_threads`' check-then-write vs. `_update_connect_state`); exit() racing with stdio locks.
+Not proved here: that dsh.c refines the LTS (trace correspondence of `checks/c20.py`: every event enabled, equal
+threadcount / t[i].state / enabled sets, the hosts the listing names = `St.listed`; plus the real dsh.c on real threads
+with real signals, `harness/sigthread_harness.c`, which is what decides `_mask_signals` and the sigwait set); fairness of
+the real scheduler (`no_deadlock_with_signals` says a step is *possible*); the content of relayed output (C05/C06 —
+"never corrupts the output of hosts that complete" is decided per run by the monitors on the fputs payloads; the
+composition "a worker past its flush has no stdio call in progress, so an abort can tear at most the record in progress
+on each FILE" needs the product of this LTS with a per-FILE call automaton and is not done); connect/command time-outs
+together with interrupts (the watchdog is here with its mutex discipline, `lock_order`, not with its clock: the Timed
+model of C07 is not composed); -k, pthread_create/rcmd_create failure; plain-memory races below the granularity of
+wrapped calls (`_cancel_pending_threads`' check-then-write vs. `_update_connect_state`); exit() racing with stdio locks.
 -/
 namespace PdshVerif.Props.C20
 open PdshVerif.Dsh.Sig
@@ -225,6 +253,103 @@ theorem single_int_harmless {v : Variant} {g sw : Bool} {f n t0 : Nat} {ls : Lis
       · rw [hex] at h; cases h
       · rw [hex] at h; cases h
       · rw [hex] at h; cases h
+
+/-! ## what the listing names (both locking disciplines) -/
+
+/-- C20: the ^C listing.  `_list_slowthreads` takes thd_mutex and records (`St.listed`, one clock reading per entry
+    scheduled) exactly the slots that are RCMD or READING at that moment, in slot order.  Every host it names is still
+    connecting — its worker has marked itself DSH_RCMD and not yet recorded the outcome of rcmd_connect — or running —
+    connected, in its read loop; every host whose command is running is named; a host inside or around rcmd_connect is
+    named unless ^Z has canceled its slot meanwhile. -/
+theorem listing_names_connecting_or_running {v : Variant} {g sw : Bool} {f n t0 : Nat} {b : Bool} {s s' : St}
+    (h : Reach v g sw f n b t0 s) (hs : step s (.s .lockT) = some s') (hw : s.spc = .listLock) :
+    s'.listed = listedNow s ∧ s'.spc = .listing s'.listed.length ∧
+    (∀ j ∈ s'.listed, j < n ∧ ((tsAt s j = .rcmd ∧ connectingPC (pc s j) = true) ∨
+                               (tsAt s j = .reading ∧ runningPC (pc s j) = true))) ∧
+    (∀ j, j < n → pc s j = .reading → j ∈ s'.listed) ∧
+    (∀ j, j < n → connectingPC (pc s j) = true → j ∈ s'.listed ∨ tsAt s j = .canceled ∨ tsAt s j = .failed) := by
+  obtain ⟨h1, h2, _, _⟩ := listing_is_snapshot hs hw
+  rw [h1]
+  refine ⟨rfl, h2, fun j hj => listed_connecting_or_running h hj, fun j hj hp => (running_is_listed h hj).1 hp,
+    fun j hj hp => (running_is_listed h hj).2 hp⟩
+
+/-- C20: what was recorded under the mutex is what is printed, whenever the printing happens: no step other than the
+    signals thread taking thd_mutex for a new listing changes `St.listed` — not a worker changing state while the
+    lines are printed after the unlock, not a delivery, not the clock -/
+theorem listing_printed_is_the_snapshot {s s' : St} {l : Label} (hs : step s l = some s')
+    (hl : ¬ (l = .s .lockT ∧ s.spc = .listLock)) : s'.listed = s.listed := by
+  rcases listed_frozen hs with h | h
+  · exact h
+  · exact absurd h hl
+
+/-- C20 is indifferent to the locking discipline of the listing: from the moment the snapshot is taken, "print the `k`
+    lines, then unlock" (dsh.c as pinned) and "unlock, then print the `k` lines" (C20-H2) are both runs of the model and
+    end in the same state: signals thread back in sigwait, thd_mutex free, everything else untouched -/
+theorem both_listing_disciplines {s : St} {k : Nat} (hx : s.exited = none) (hw : s.spc = .listing k) :
+    run s (times s.now k ++ [.s .unlockT]) = some { s with spc := .waiting, thd := .none } ∧
+    run s ([.s .unlockT] ++ times s.now k) = some { s with spc := .waiting, thd := .none } :=
+  both_disciplines hx hw
+
+/-- non-vacuity: N = 2, fanout 2, h0 running, h1 connecting when ^C arrives: the listing names both; printed after the
+    unlock (C20-H2's discipline) while h1's connect completes in between — accepted, and `listed` is still [0, 1] -/
+example : (run (init .whileWait true false 2 2 false 10)
+    ([.d .createS, .d .lock, .d (.create 0), .d .unlock, .d .lock, .d (.create 1), .d .unlock,
+      .w 0 .lockT, .w 0 .unlockT, .w 0 .connectBegin, .w 0 (.connectEnd true), .w 0 .lockT, .w 0 .time, .w 0 .unlockT,
+      .w 1 .lockT, .w 1 .unlockT, .w 1 .connectBegin] ++
+     [.e (.deliver .int), .s (.sigwait .int), .s (.time 10), .s (.time 10), .s .lockT, .s .unlockT,
+      .w 1 (.connectEnd true), .w 1 .lockT, .s (.time 10), .w 1 .time, .w 1 .unlockT, .s (.time 10)])).map
+      (fun s => (s.listed, decide (s.spc = .waiting), s.ts)) = some ([0, 1], true, [.reading, .reading]) := by decide
+
+/-! ## lock discipline: dispatcher, workers, signals thread and watchdog -/
+
+/-- C20 (never deadlocks — the mutex part, watchdog included): in every reachable state in which pdsh is still
+    running, no thread holds threadcount_mutex and thd_mutex together; the watchdog never holds threadcount_mutex; and
+    the holder of thd_mutex, and the holder of threadcount_mutex, each has an enabled operation *of its own* that
+    acquires no mutex (it reads the clock, signals, creates, waits on the condition variable — which releases — or
+    unlocks).  A thread that holds a mutex therefore never waits for one: there is no lock order to violate, between
+    any two of dispatcher, workers, signals thread and watchdog, under any schedule.  (`s.spc ≠ .cancelled`: short of
+    the signals thread having ended on dsh()'s request, which is made only after the final drain.) -/
+theorem lock_order {v : Variant} {g sw : Bool} {f n t0 : Nat} {b : Bool} {s : St} (h : Reach v g sw f n b t0 s)
+    (hx : s.exited = none) (hnc : s.spc ≠ .cancelled) :
+    (∀ t, t ≠ .none → ¬ (s.own = t ∧ s.thd = t)) ∧ s.own ≠ .g ∧
+    (s.thd ≠ .none → RunsOn s s.thd) ∧ (s.own ≠ .none → RunsOn s s.own) := by
+  have hinv := inv_reach h
+  exact ⟨fun t ht => never_both hinv hnc t ht, hinv.w.ownG, fun ht => thd_holder_runs hinv hx ht hnc,
+    fun ho => own_holder_runs hinv hx ho hnc⟩
+
+/-- non-vacuity (repaired shutdown, N = 1): the watchdog holds thd_mutex around slot 0 when ^C arrives; the signals
+    thread, which wants thd_mutex for the listing, cannot take it — and the watchdog can release it -/
+example : (run (init .whileWait true true 1 1 false 10)
+    [.d .createG, .d .createS, .d .lock, .d (.create 0), .d .unlock, .g .lockT,
+     .e (.deliver .int), .s (.sigwait .int), .s (.time 10), .s (.time 10)]).map
+      (fun s => (decide (s.thd = .g ∧ s.spc = .listLock), (step s (.s .lockT)).isSome, (step s (.g .unlockT)).isSome)) =
+    some (true, false, true) := by decide
+
+/-! ## the exit status, composed with the -S loop of C08 -/
+
+/-- C20 + C08: ^C ^Z with -S.  Repaired worker, repaired -S loop (F08-CANCELED), per-target codes in 0..255: if
+    `_cancel_pending_threads` finds target `j` not yet started, then however the run continues, when it comes to its
+    normal end the exit status under -S is not 0 — the canceled target is still DSH_CANCELED when dsh() returns and the
+    loop at the end of dsh() (C08's `aggregate`) counts it as a failure -/
+theorem canceled_run_S_nonzero {v : Variant} {sw : Bool} {f n t0 : Nat} {b : Bool} {s s' s'' : St} {ls : List Label} {j : Nat}
+    (h : Reach v true sw f n b t0 s) (hs : step s (.s .lock) = some s') (he : Exec s' ls s'') (hj : j < n)
+    (hnew : tsAt s j = .new) (fx : PdshVerif.Dsh.Exit.Fixes) (hc : fx.canc = true) (k : Bool) (rcs : List Int)
+    (hl : rcs.length = n) (hrc : ∀ r ∈ rcs, 0 ≤ r ∧ r ≤ 255) :
+    PdshVerif.Dsh.Exit.mainExit fx ⟨true, k⟩ (.started (finalHosts s''.ts rcs)) ≠ 0 :=
+  PdshVerif.Dsh.Sig.canceled_run_S_nonzero h hs he hj hnew fx hc k rcs hl hrc
+
+/-- C20 + C08: "the run continues unharmed to its normal result" includes the exit status: erasing a harmless
+    interrupt (`erase_commutes`) leaves the slots the -S loop reads unchanged, so the status is that of the
+    signal-free run, whatever the flags -/
+theorem harmless_same_exit_status (s : St) (fx : PdshVerif.Dsh.Exit.Fixes) (fl : PdshVerif.Dsh.Exit.Flags) (rcs : List Int) :
+    PdshVerif.Dsh.Exit.mainExit fx fl (.started (finalHosts (strip s).ts rcs)) =
+      PdshVerif.Dsh.Exit.mainExit fx fl (.started (finalHosts s.ts rcs)) :=
+  PdshVerif.Dsh.Sig.harmless_same_exit_status s fx fl rcs
+
+/-- non-vacuity of `canceled_run_S_nonzero`: the run of the example further down (N = 2, fanout 1, ^C ^Z cancels host 1,
+    host 0 completes, dsh() returns) with codes [0, 0] under -S: status 254, not 0 -/
+example : PdshVerif.Dsh.Exit.mainExit PdshVerif.Dsh.Exit.Fixes.all ⟨true, false⟩
+    (.started (finalHosts [.done, .canceled] [0, 0])) = 254 := by decide
 
 /-! ## ^C ^Z -/
 
